@@ -256,3 +256,34 @@ Proof.
   apply (conforming_tree_mediated d11 paths_mediated_except_d11); auto.
   pose proof entry_points_mediated as H. rewrite forallb_forall in H. apply H. exact He.
 Qed.
+
+(* ---------- after the repair of D11 (the environment also replaces pickle.Unpickler): EVERY row of
+   the regenerated table is mediated, so every conforming tree is ---------- *)
+Definition no_bad (_ : gname) (_ : string) : bool := false.
+
+Lemma table_check_all : table_check no_bad = true.
+Proof. vm_compute. reflexivity. Qed.
+
+Lemma paths_mediated_all : forall row, In row loader_paths -> pair_mediated row = true.
+Proof. intros row Hin. exact (table_check_ok no_bad table_check_all row Hin eq_refl). Qed.
+
+Lemma uses_no_bad : forall n, uses no_bad n = false.
+Proof.
+  apply (node_ind2 (fun n => uses no_bad n = false) (fun e => ev_uses no_bad e = false)).
+  - intros k evs IH. cbn [uses]. rewrite Forall_forall in IH.
+    destruct (existsb (ev_uses no_bad) evs) eqn:E; [|reflexivity].
+    apply existsb_exists in E. destruct E as (e & Hin & He). rewrite (IH e Hin) in He. discriminate.
+  - reflexivity.
+  - intros c ct ok ch IH. cbn [ev_uses]. unfold no_bad at 1. cbn [orb]. rewrite Forall_forall in IH.
+    destruct (existsb (uses no_bad) ch) eqn:E; [|reflexivity].
+    apply existsb_exists in E. destruct E as (n & Hin & Hn). rewrite (IH n Hin) in Hn. discriminate.
+Qed.
+
+Lemma safe_conforming a n :
+  In (kind_of n) entry_points -> conforms n = true -> run_ml a n = restrict a (run_stock n).
+Proof.
+  intros He Hc. apply mediated_tree_eq.
+  apply (conforming_tree_mediated no_bad (table_check_ok no_bad table_check_all)); auto.
+  - pose proof entry_points_mediated as H. rewrite forallb_forall in H. apply H. exact He.
+  - apply uses_no_bad.
+Qed.
